@@ -16,6 +16,8 @@ class CDevice2(Device):
     if len(self.cbounds) == 1:
       self._cost_fn = InnerSumFunction(HLQuadraticCost(self.p_l, self.p_h, self.cbounds[0][0], self.cbounds[0][1]))
     else:
+      if self.cbounds[-1][3] != len(self):
+        raise ValueError('cumulative ranges must cover the whole horizon')
       self._cost_fn = RangesFunction([((c[2], c[3]), InnerSumFunction(HLQuadraticCost(self.p_l, self.p_h, c[0], c[1]))) for c in self.cbounds])
 
   def cost(self, s, p):
